@@ -346,8 +346,12 @@ async fn main(plan: Plan) -> Outcome {
         retry: Some(Arc::new(DefaultRetryPolicy::new())),
         request_timeout: Some(Duration::from_secs(30)),
         compression: client::draw_compression(),
+        // 1 in 3 runs a client-side timestamp generator is configured: a repeated request
+        // carries the timestamp of the original, not a fresh one.
+        timestamp_generator: tape::chance("c14:timestamp_generator", 1, 3),
         ..SessionCfg::default()
     };
+    out.count("runs_with_timestamp_generator", cfg.timestamp_generator as u64);
     let session = match client::build_session(&cfg).await {
         Ok(s) => Arc::new(s),
         Err(e) => {
@@ -889,7 +893,17 @@ async fn main(plan: Plan) -> Outcome {
             }
         }
         let conn_ext = world::world().conns[last.conn].cql.metadata_id_ext;
-        let admissible = if with_metadata {
+        // On a connection with the extension the node omits the metadata exactly when the
+        // id the client presented is the id of the version it encoded the rows with: the
+        // client asked with that version's metadata in hand and must decode with it,
+        // whatever it has learnt in the meantime from other answers.
+        let presented_this_version = conn_ext
+            && last
+                .presented_md_id
+                .as_ref()
+                .map(|md| announced.iter().any(|a| a.1 == version && &a.2 == md))
+                .unwrap_or(false);
+        let admissible = if with_metadata || presented_this_version {
             true
         } else if !conn_ext && !plan.use_cached {
             // Neither the extension (on this connection) nor the caller's opt-in allows
